@@ -1248,11 +1248,17 @@ func init() {
 		},
 		shards: func(tier string) int { return 16 },
 		run: func(c *Ctx) {
+			concRunFor(c, "C16")
 			e := c16NewEnv(c)
 			defer e.up.Close()
 			e.runOff()
 			e.runOn()
 		},
-		replay: c16Replay,
+		replay: func(c *Ctx, raw json.RawMessage) string {
+			if out, ok := concReplayFor(c, "C16", raw); ok {
+				return out
+			}
+			return c16Replay(c, raw)
+		},
 	})
 }
